@@ -290,6 +290,17 @@ def gen_captures(ctx):
                 if evs[k - 1][2]:
                     evs[k][2] = False
         out.append({"ltk": ltk, "mat": mat, "keys": [ltk], "events": evs, "kind": "length-boundary" if i < 2 else "length-boundary-lossy"})
+    # control PDUs (LLID 3) whose FIRST CIPHERTEXT BYTE takes every value 0..255 (the driver picks the plaintext
+    # opcode accordingly): nothing in the encrypted bytes may be interpreted before decryption
+    nsweep = 16 if ctx.thorough else 8
+    per = 256 // nsweep
+    for i in range(nsweep * (2 if ctx.thorough else 1)):
+        ltk, mat = rand_material(rng, 5)
+        evs = []
+        for v in range((i % nsweep) * per, (i % nsweep) * per + per):
+            d = M2S if (v + i // nsweep + i) % 2 == 0 else S2M
+            evs.append([d, rand_pdu(rng, rng.choice([1, 2, 3, 9, 23]), llid=3).hex(), True, v])
+        out.append({"ltk": ltk, "mat": mat, "keys": [ltk], "events": evs, "kind": "ciphertext-byte-sweep"})
     for i in range(40 if ctx.thorough else 10):
         ltk, mat = rand_material(rng)
         keys = [ltk]
@@ -640,7 +651,8 @@ def judge_link(ctx, l, res):
 def judge_capture(ctx, c, res):
     if "exc" in res:
         return ctx.violation("decryptor raised " + res["exc"] + " on a captured connection", {"op": "capture", **c})
-    want = [(None if (bytes.fromhex(h)[1] == 0 and bytes.fromhex(h)[0] & 3 == 1) else h) for d, h, cap in c["events"] if cap]
+    plain = res.get("plain") or [e[1] for e in c["events"] if e[2]]      # the driver may have chosen the first payload byte
+    want = [(None if (bytes.fromhex(h)[1] == 0 and bytes.fromhex(h)[0] & 3 == 1) else h) for h in plain]
     got = [(o["d"] if o["k"] == 1 else None) for o in res["obs"]]
     if want != got:
         i = next((j for j, (a, b) in enumerate(zip(want, got)) if a != b), min(len(want), len(got)))
@@ -658,7 +670,7 @@ def judge_dec_raw(ctx, c, res):
             n += ctx.violation("decryptor without material did not raise MissingCryptographicMaterial", {"op": "dec", **c}, observed=res["obs"])
     elif c["kind"] == "corrupted-capture":
         src = c["src"]
-        caps = [h for d, h, cap in src["events"] if cap]
+        caps = c.get("_plain") or [e[1] for e in src["events"] if e[2]]
         genuine = []
         # the genuine PDUs are exactly the capture's on-air PDUs in order; corrupted copies precede some of them
         for p in c["pdus"]:
@@ -772,6 +784,7 @@ def run(ctx):
         if c["kind"] == "corrupted-capture":
             idx = captures.index(c["src"])
             c["_air_set"] = set(r1["capture"][idx].get("air", []))
+            c["_plain"] = r1["capture"][idx].get("plain")
     r2 = C.run_impl("C13.py", {"dec": [{"keys": c["keys"], "mats": c["mats"], "pdus": c["pdus"]} for c in dec_raw]})
 
     # ---- oracle: the property on the real code ------------------------------------
